@@ -1,17 +1,17 @@
 SPECIFICATION Spec
 CONSTANTS
-  Roots <- N_Roots
-  Ops <- N_FftOps
-  Scheds = {"sync"}
-  MaxDepth = 1
-  MaxRuns = 1
+  Roots <- N_OverRoots
+  Ops <- N_OverOps
+  Scheds = {"any"}
+  MaxDepth = 2
+  MaxRuns = 2
   MaxTasks = 12
-  FftNeedsOneChunk = FALSE
+  FftNeedsOneChunk = TRUE
   ChirpKeyByChannel = TRUE
   EagerOps <- None_
   NumpyOps <- None_
   ReaderPerBlock = FALSE
-  OverwriteTags <- None_
+  OverwriteTags <- N_OverTags
 VIEW View
-INVARIANT SameAsNumpy
+PROPERTY InputsStable
 CHECK_DEADLOCK FALSE
